@@ -150,6 +150,70 @@ fn mangle(d: &Desc, cwd: &Path, mod_dir: &Path, interner: &mut interner::Interne
     }
 }
 
+/// reference decoder of the documented name format: a table of contents of kind letters, then
+/// per part its length followed by its text (a part that starts with a digit is prefixed with
+/// the lower-case kind letter, which counts towards the length), then `E`
+fn decode(name: &str) -> Option<Vec<(char, String)>> {
+    let toc: Vec<char> = name.chars().take_while(|c| "MFNGLZI".contains(*c)).collect();
+    let mut rest = &name[toc.len()..];
+    let mut parts = Vec::new();
+    for k in toc {
+        let digits: String = rest.chars().take_while(|c| c.is_ascii_digit()).collect();
+        let n: usize = digits.parse().ok()?;
+        rest = &rest[digits.len()..];
+        if rest.len() < n || !rest.is_char_boundary(n) {
+            return None;
+        }
+        let mut text = rest[..n].to_string();
+        rest = &rest[n..];
+        text = unescape(k, &text);
+        parts.push((k, text));
+    }
+    if rest == "E" {
+        Some(parts)
+    } else {
+        None
+    }
+}
+
+/// `f1` (the escaped form of `1`) back to `1`
+fn unescape(kind: char, text: &str) -> String {
+    let mut cs = text.chars();
+    if cs.next() == Some(kind.to_ascii_lowercase()) && cs.next().is_some_and(|c| c.is_ascii_digit()) {
+        text[1..].to_string()
+    } else {
+        text.to_string()
+    }
+}
+
+/// the parts the documented format prescribes for a descriptor (after the documented path
+/// normalisations: `.capy` stripped, `.` -> `-`, the `src` component skipped)
+fn expected_parts(d: &Desc) -> Vec<(char, String)> {
+    let documented: BTreeSet<String> = ["capy-suffix-strip", "dot-to-dash", "src-skip"]
+        .iter()
+        .map(|s| s.to_string())
+        .collect();
+    let c = d.canon(&documented);
+    let mut parts = Vec::new();
+    for (i, comp) in c.path.iter().enumerate() {
+        parts.push((if d.in_mod_dir && i == 0 { 'M' } else { 'F' }, comp.clone()));
+    }
+    match &d.entity.base {
+        Base::Global(n) => parts.push(('N', n.clone())),
+        Base::Lambda(i) => parts.push(('L', i.to_string())),
+    }
+    if let Some(g) = d.entity.generic {
+        parts.push(('G', g.to_string()));
+    }
+    if let Some((k, data)) = &d.entity.comptime {
+        parts.push(('Z', k.to_string()));
+        if let Some(name) = data {
+            parts.push(('I', name.clone()));
+        }
+    }
+    parts
+}
+
 fn internal_names() -> Vec<String> {
     // every string literal passed to mangle_internal in the code generator
     let mut names = BTreeSet::new();
@@ -274,6 +338,24 @@ pub fn run(args: &Args) -> ! {
                 };
                 if samples.len() < 4 && descriptors % 9973 == 1 {
                     samples.push(format!("{} -> {}", d.show(), name));
+                }
+                // the name must decode (uniquely, by the documented format) to the descriptor
+                let expected = expected_parts(&d);
+                let decoded = decode(&name);
+                if decoded.as_ref() != Some(&expected) {
+                    let unescaped: Vec<(char, String)> =
+                        expected.iter().map(|(k, t)| (*k, unescape(*k, t))).collect();
+                    if decoded.as_ref() == Some(&unescaped) && listed_models.contains("digit-leading-escape") {
+                        // `f1` decodes to `1`: the listed digit-leading-escape confusion
+                        *excused_by_model.entry("digit-leading-escape".into()).or_default() += 1;
+                    } else {
+                        failures.push(Failure {
+                            signature: "name-does-not-decode-to-its-entity".into(),
+                            input: d.show(),
+                            api: "to_mangled_name".into(),
+                            detail: format!("{name} decodes to {decoded:?}, expected {expected:?}"),
+                        });
+                    }
                 }
                 if name == "main" || internals.contains(&name) {
                     failures.push(Failure {
